@@ -18,14 +18,21 @@ class GCCStmtDeclExpr(Hybrid):
         self.stmt: Effect = stmt
         self.expr: Pure = expr
         self.seq_order = HybridSeqOrder.EXEC_THEN_SET_VAL
+        # True if the statement is an effect which has its own variable in the emitted code.
+        self.stmt_is_initialized = True
 
         Hybrid.__init__(self, name, [stmt, expr], value_type)
 
     def update_stmt(self, stmt: Effect):
+        """Replaces the statement with an effect which wraps it (and is not initialized on its own)."""
         self.stmt = stmt
+        self.stmt_is_initialized = False
         self.effect_ops[0] = stmt
 
     def il_write(self):
+        if self.stmt_is_initialized:
+            # The statement has its own effect variable. Use it, instead of building the effect a second time.
+            return self.stmt.effect_var()
         return self.stmt.il_write()
 
     def il_exec(self):
